@@ -1,6 +1,7 @@
 CONSTANTS MaxRetx = 2
   MaxPeerMsgs = 4
   IgnoreAfterDone = FALSE
+  OnceClose = TRUE
 INIT Init
 NEXT Next
 INVARIANTS Bounded FailClosed OkOnlyAfterOk StableAfterOK
